@@ -95,6 +95,7 @@ type Result struct {
 	Witnesses   []Witness      `json:"witnesses"`
 	EndUnsat    int            `json:"endcheck_unsat"`
 	ParanoidBad int            `json:"paranoid_mismatch"`
+	ParanoidN   int            `json:"paranoid_checked"`
 	Timeout     bool           `json:"timeout"`
 	Truncated   bool           `json:"truncated"`
 	Error       string         `json:"error,omitempty"`
@@ -216,6 +217,7 @@ func (w *World) newExec(job *Job) (*Exec, error) {
 		ex.safety = job.Safety
 		ex.lazyLookup = job.Lazy
 		ex.frameCheck = job.Frame
+		ex.paranoid = job.Paranoid
 		if len(job.Part) == 2 {
 			ex.partLo, ex.partHi = job.Part[0], job.Part[1]
 		}
@@ -485,6 +487,7 @@ func (w *World) runJob(job *Job) (res *Result) {
 	res.Queries, res.Sat, res.Unsat = sol.Queries-q0, sol.SatN-s0, sol.UnsatN-u0
 	res.SolverS = (sol.Time - st0).Seconds()
 	res.Fast, res.Slow, res.Implied = ex.fastN, ex.slowN, ex.impliedN
+	res.ParanoidBad, res.ParanoidN = ex.paranoidBad, ex.paranoidN
 	for f := range ex.funcs {
 		res.Funcs = append(res.Funcs, f)
 	}
@@ -518,6 +521,8 @@ func main() {
 	part := fs.String("part", "", "lo,hi range for the first input byte")
 	verbose := fs.Bool("v", false, "verbose")
 	prof := fs.String("prof", "", "cpu profile file")
+	paranoid := fs.Bool("paranoid", false, "re-decide every byte-domain verdict with z3")
+	smtlog := fs.String("smtlog", "", "write every line sent to the solver to this file (for cross-checking with other solvers)")
 	fs.Parse(os.Args[2:])
 	debug.SetGCPercent(400)
 	if *prof != "" {
@@ -532,6 +537,13 @@ func main() {
 		out, _ := json.Marshal(map[string]string{"fatal": err.Error()})
 		fmt.Println(string(out))
 		os.Exit(2)
+	}
+	if *smtlog != "" {
+		lf, err := os.Create(*smtlog)
+		if err == nil {
+			defer lf.Close()
+			w.sol.log = lf
+		}
 	}
 	loadS := time.Since(t0).Seconds()
 	if err := checkUnicodeFacts(); err != nil {
@@ -559,7 +571,7 @@ func main() {
 			fmt.Println(string(out))
 		}
 	case "run":
-		job := &Job{ID: "cli", Entry: *entry, Safety: *safety, Frame: *frame, MaxPaths: *maxPaths, NoCone: *noCone, NoDom: *noDom, Lazy: *lazy, WitnessEvery: *wEvery}
+		job := &Job{ID: "cli", Entry: *entry, Safety: *safety, Frame: *frame, MaxPaths: *maxPaths, NoCone: *noCone, NoDom: *noDom, Lazy: *lazy, WitnessEvery: *wEvery, Paranoid: *paranoid}
 		if *argsS != "" {
 			for _, a := range strings.Split(*argsS, ",") {
 				n, _ := strconv.ParseInt(a, 10, 64)
@@ -578,6 +590,9 @@ func main() {
 			fmt.Println(string(out))
 		} else {
 			fmt.Printf("entry=%s args=%v load=%.1fs wall=%.2fs paths=%d ends=%v forks=%d\n", res.Entry, res.Args, loadS, res.WallS, res.Paths, res.Ends, res.Forks)
+			if res.ParanoidN > 0 {
+				fmt.Printf("paranoid: %d byte-domain verdicts re-decided by z3, %d mismatches\n", res.ParanoidN, res.ParanoidBad)
+			}
 			fmt.Printf("fast=%d slow=%d implied=%d queries=%d sat=%d unsat=%d solver=%.2fs maxcost=%d maxdepth=%d pool=%d endunsat=%d\n", res.Fast, res.Slow, res.Implied, res.Queries, res.Sat, res.Unsat, res.SolverS, res.MaxCost, res.MaxDepth, res.TermPool, res.EndUnsat)
 			for _, v := range res.Violations {
 				fmt.Printf("  %6d %s: %s   e.g. %s\n", v.Count, v.Kind, v.Msg, v.Text)
